@@ -159,6 +159,19 @@ func c15Run(c *Ctx) {
 	if o.Kind == mon.Error {
 		c.Violation("gate:harness", "%v", o.Err)
 	}
+	if c.Idx%4 == 3 {
+		// a few more probes drawn from the whole space, back to back: the verdict of a gate does
+		// not depend on which lists (of which operators) were accepted or refused just before
+		for k := 0; k < 3; k++ {
+			other := c15Space[c.R.Intn(len(c15Space))]
+			c.Logf("followed by gate %s: %d inputs, dtype %v at position %d, nil at %d", other.op, other.n, gateDtypeName(other.dt), other.pos, other.nilAt)
+			o := mon.Capture(nil, func() ([]tensor.Tensor, error) { return nil, c15Gate(c, other) })
+			if o.Kind == mon.Panic {
+				c.Violation("gate:"+other.op+":panic", "input gate panicked (probe %d after the case's own): %s", k+1, o.Describe())
+			}
+		}
+		c.Count("gate:back-to-back-probe-sequences", 1)
+	}
 }
 
 // c15Gate performs one gate probe; a returned error is a harness failure.
@@ -590,7 +603,14 @@ func c15ForeignModel(c *Ctx, name string) {
 	if r.Chance(0.3) { // no inputs either / a skipped input
 		for i := range nodes {
 			if nodes[i].Op == name {
-				nodes[i].Inputs = [][]string{nil, {""}, {"", "x"}}[r.Intn(3)]
+				// also names for which no tensor exists when the node is reached: a name nothing
+				// produces, a later node's output, the node's own output - the operator type is
+				// what Run has to diagnose
+				own := "ghost"
+				if len(nodes[i].Outputs) > 0 && nodes[i].Outputs[0] != "" {
+					own = nodes[i].Outputs[0]
+				}
+				nodes[i].Inputs = [][]string{nil, {""}, {"", "x"}, {"ghost"}, {"x", "ghost"}, {"y"}, {own}}[r.Intn(7)]
 				desc += ", inputs " + fmt.Sprint(nodes[i].Inputs)
 			}
 		}
@@ -684,7 +704,25 @@ func c15GateBeforeCompute(c *Ctx) {
 	c.SetCase("model-level gate of %s (mode %d): %s", name, mode, trunc(bad.Describe(), 300))
 	c.Nontrivial(fmt.Sprintf("gate-before-compute|%s|%d|%d", name, mode, len(bad.Inputs)))
 	g, feed := mon.BuildOpModel(bad, mon.ModelOpts{})
-	tr := mon.RunGraphTraced(g, feed, nil)
+	var earlier []map[string]*ref.T
+	if mode == 0 && c.R.Bool() {
+		// the loaded model has accepted (and computed) the valid request before: the gate is
+		// asked on every Run, whatever the node was given earlier
+		valid := map[string]*ref.T{}
+		for i, in := range req.Inputs {
+			if in != nil {
+				valid[fmt.Sprintf("i%d", i)] = in
+			}
+		}
+		for n := c.R.Range(1, 2); n > 0; n-- {
+			earlier = append(earlier, valid)
+		}
+		c.Count("gate-model:after-earlier-valid-runs", 1)
+	}
+	tr := mon.RunGraphTracedAfter(g, feed, earlier, nil)
+	if tr.Prior <= len(tr.Events) {
+		tr.Events = tr.Events[tr.Prior:]
+	}
 	c.Eval(1)
 	switch tr.Outcome.Kind {
 	case mon.Panic:
